@@ -222,7 +222,7 @@ pub fn run(ctx: &Ctx) -> (Outcome, String, Option<bool>) {
     }
     let o = run_enumeration(ctx, "activation-boundary", bcases, |(net, ms), st, shard| boundary_case(*net, ms.parse().unwrap(), st, shard));
     out.absorb(o);
-    out.absorb(crate::runner::run_sharded(ctx, "sampled-heights", ctx.scale(250, 4000), arb_at_height, |c, st, shard| check_at_height(c, st, shard)));
+    out.absorb(crate::runner::run_sharded(ctx, "sampled-heights", ctx.scale(400, 6000), arb_at_height, |c, st, shard| check_at_height(c, st, shard)));
     let rule = format!("Sampled: mainnet and testnet states re-based at heights drawn uniformly from 3..2 000 000 (TIP-906 barrier crossed honestly), multiplier installed through the header from 12 classes (0, 1, 2, 127, 128, 10^3, 10^6, 2^63-1, 2^63, 2^70+5, 2^100, 2^128-4), 1-4 blocks sealed with extreme and random deltas. Enumerated: all 256 deltas x multipliers {{0..{} step {}}} + {{2^k-2..2^k+2 : 7<=k<=69}} + {{2^70-2, 2^70-1, 2^70}} + pseudo-random values below 2^70 + a few values around 2^100, 2^126, 2^127 and 2^128-1 ({} multipliers), on Custom02 (TIP-901 active) and on Mainnet and Testnet at height 0 (TIP-901 inactive; every third chunk), plus sealing without action, plus runs of 300 blocks of extreme deltas (-128, 127, -1, 1 in stretches of 40) from selected starting points. Additionally, for 13 starting multipliers, the blocks at heights activation-2 .. activation+2 of TIP-901 on mainnet (42 700; state re-based through from_block) and testnet (500; reached with empty blocks) are sealed with deltas -128, -64, -1, 1, 64, 127. Oracle: m' = m + trunc(max(m>>7, 2 if TIP-901) * d / 128) in exact integer arithmetic; where that leaves [0, 2^128) the only requirement is that sealing does not fail and the multiplier does not move the wrong way or wrap; no action => unchanged. Non-trivial = (m, d) with d != 0; distinct by (m, d, TIP-901).", if ctx.thorough() { 16384 } else { 4096 }, if ctx.thorough() { 1 } else { 2 }, ms.len());
     (out, rule, Some(true))
 }
@@ -260,8 +260,13 @@ pub fn arb_at_height() -> impl proptest::strategy::Strategy<Value = AtHeight> {
 
 pub fn check_at_height(c: &AtHeight, st: &mut Stats, shard: usize) -> Check {
     st.eval();
-    let net = if c.net % 2 == 0 { NetID::Mainnet } else { NetID::Testnet };
-    let barrier = if net == NetID::Mainnet { 829_999u64 } else { 499 };
+    // half of the cases on mainnet / testnet, the other half over all nine network ids (on the custom networks every
+    // TIP is active from genesis - whatever else a network id switches on at some height shows here)
+    let net = match c.net % 18 {
+        x if x < 9 => if x % 2 == 0 { NetID::Mainnet } else { NetID::Testnet },
+        x => crate::world::nets()[(x - 9) as usize],
+    };
+    let barrier = if net == NetID::Mainnet { 829_999u64 } else if net == NetID::Testnet { 499 } else { u64::MAX - 10 };
     let target = c.height as u64;
     let mut w = World::new(genesis(net, 1000), shard);
     if target > barrier + 2 {
@@ -313,7 +318,7 @@ pub fn check_at_height(c: &AtHeight, st: &mut Stats, shard: usize) -> Check {
             _ => break,
         }
     }
-    st.class(if net == NetID::Mainnet { "sampled-height-mainnet" } else { "sampled-height-testnet" });
+    st.class(if net == NetID::Mainnet { "sampled-height-mainnet" } else if net == NetID::Testnet { "sampled-height-testnet" } else { "sampled-height-custom-network" });
     st.nontrivial(crate::util::h64(format!("{:?}", c).as_bytes()));
     Ok(())
 }
